@@ -16,6 +16,22 @@
                                                     bytes: base = "right" - the first n bytes of the correct
                                                     scramble for pw1, continued with junk beyond 20;
                                                     base = "junk" - n arbitrary bytes.  n # 20 or junk.
+       [k |-> "exact", n |-> 20, base |-> "end0" | "start0"]   the raw client answering with exactly the
+                                                    correct 20-byte scramble for pw1, on a handshake whose
+                                                    salt makes that scramble END (resp. START) with the byte
+                                                    0x00 (the driver reconnects until the salt is such a one)
+       [k |-> "padded", n, base |-> "trail" | "lead"]   the correct scramble for pw1 followed (preceded) by
+                                                    n - 20 bytes 0x00
+       [k |-> "allnul", n, base |-> "nul"]          n bytes 0x00 (n >= 1)
+       [k |-> "empty", n |-> 0, base |-> ""]        a zero-length auth response
+   What such bytes ARE is the abstract class of the proof under the plugin that judges it (Class): the
+   MySQL protocol knows, for mysql_native_password, the empty response (no password) and the 20-byte
+   scramble; everything else is malformed (native_password_authenticate answers it with a handshake
+   error).  For caching_sha2_password the empty response and a lone 0x00 (what its clients send for an
+   empty password) say "no password".  The SHA arithmetic stays outside: "exact" IS the valid proof
+   of pw1, the driver computes it.
+   A raw client over TLS announces caching_sha2_password and is generated only with the two proofs
+   that are decided without a further round trip (empty, lone NUL).
    Account matching follows mysql_db.GetUser: a loopback client is looked up as 'localhost' first
    (exact), then the entries with the attempt's user name whose host matches, then the anonymous
    entries whose host matches; WHICH of several matching entries of one tier is taken is not
@@ -32,7 +48,9 @@ CONSTANTS AcctUsers,      \* e.g. {"alice", ""}
           LockKinds,      \* {"no", "create", "update"}
           MaxAccts,       \* account sets of 1..MaxAccts accounts
           AttemptUsers,   \* e.g. {"alice", "bob"}
-          Lens            \* response lengths of the malformed proofs (subset of 1..40 \ {20})
+          Lens,           \* response lengths of the malformed proofs (subset of 1..40 \ {20})
+          NulLens,        \* lengths of the all-NUL responses, e.g. {1, 19, 20, 21, 32}
+          PadLens         \* numbers of NUL bytes added to the correct scramble, e.g. {1, 12}
 
 RangeOf(s) == {s[i] : i \in DOMAIN s}
 
@@ -53,10 +71,27 @@ Pw(l) == [k |-> "password", pw |-> l, n |-> 0, base |-> ""]
 Proofs == {Pw("pw1"), Pw("pw2"), Pw("none")}
               \cup {[k |-> IF n < 20 THEN "short" ELSE "long", pw |-> "", n |-> n, base |-> b] : n \in Lens, b \in {"right", "junk"}}
               \cup {[k |-> "garbage", pw |-> "", n |-> 20, base |-> "junk"]}
-WellFormed(p) == p.k = "password"
+              \cup {[k |-> "exact", pw |-> "", n |-> 20, base |-> b] : b \in {"end0", "start0"}}
+              \cup {[k |-> "padded", pw |-> "", n |-> 20 + j, base |-> b] : j \in PadLens, b \in {"trail", "lead"}}
+              \cup {[k |-> "allnul", pw |-> "", n |-> n, base |-> "nul"] : n \in NulLens}
+              \cup {[k |-> "empty", pw |-> "", n |-> 0, base |-> ""]}
+WellFormed(p) == p.k = "password"            \* made by a client library that was given a password
+LoneNul(p) == p.k = "allnul" /\ p.n = 1
 Attempts == {[user |-> u, tls |-> t, proof |-> p] : u \in AttemptUsers, t \in BOOLEAN, p \in Proofs}
-\* the raw client speaks mysql_native_password without TLS
-RunnableAttempts == {a \in Attempts : WellFormed(a.proof) \/ ~a.tls}
+\* the raw client speaks mysql_native_password without TLS, and caching_sha2_password over TLS with the
+\* two proofs that need no further round trip
+RunnableAttempts == {a \in Attempts : WellFormed(a.proof) \/ ~a.tls \/ a.proof.k = "empty" \/ LoneNul(a.proof)}
+
+\* ---- what the bytes of a proof are, under the plugin that judges them ----------------------------
+\* "valid" (a proof of knowledge of the password labelled Proven), "empty" (no password presented),
+\* "malformed" (neither)
+Class(p, plugin) ==
+    CASE p.k = "password" -> (IF p.pw = "none" THEN "empty" ELSE "valid")
+      [] p.k = "exact" -> (IF plugin = "native" THEN "valid" ELSE "malformed")
+      [] p.k = "empty" -> "empty"
+      [] p.k = "allnul" -> (IF p.n = 1 /\ plugin = "sha2" THEN "empty" ELSE "malformed")
+      [] OTHER -> "malformed"
+Proven(p) == IF p.k = "password" THEN p.pw ELSE IF p.k = "exact" THEN "pw1" ELSE ""
 
 \* ---- account matching (GetUser) ----------------------------------------------------------------
 Candidates(accts, user) ==
@@ -68,9 +103,10 @@ Candidates(accts, user) ==
 \* ---- the decision for one matched account ---------------------------------------------------------
 \* caching_sha2_password needs a secure transport here (the server offers no RSA key exchange)
 PluginUsable(a, att) == a.plugin = "native" \/ att.tls
+\* the client proves knowledge of the account's password, or the account has none and none is presented
 KnowsPassword(a, att) ==
-    /\ WellFormed(att.proof)
-    /\ att.proof.pw = a.pw             \* "none" = no password on the account and none presented
+    LET c == Class(att.proof, a.plugin) IN
+    IF a.pw = "none" THEN c = "empty" ELSE (c = "valid" /\ Proven(att.proof) = a.pw)
 Decide(a, att) ==
     IF a.locked # "no" THEN "reject"
     ELSE IF ~PluginUsable(a, att) THEN "reject"
@@ -114,7 +150,15 @@ AcceptSound == Judged => \A e \in Exp : e.o = "accept" =>
     \E a \in accts : /\ CurrentUser(a) = e.cu /\ MatchesClient(a.host) /\ a.user \in {att.user, ""}
                      /\ a.locked = "no" /\ KnowsPassword(a, att) /\ PluginUsable(a, att)
 \* malformed proofs, wrong passwords and locked / absent accounts are rejected
-MalformedRejected == Judged /\ ~WellFormed(att.proof) => Exp = {[o |-> "reject", cu |-> ""]}
+MalformedRejected == Judged /\ (\A pl \in Plugins : Class(att.proof, pl) = "malformed") => Exp = {[o |-> "reject", cu |-> ""]}
+\* presenting nothing opens only accounts without password; presenting something never opens those
+EmptyOnlyPasswordless == Judged => \A a \in accts :
+    (\E e \in Exp : e.o = "accept" /\ e.cu = CurrentUser(a)) /\ Candidates(accts, att.user) = {a}
+        => (a.pw = "none" <=> Class(att.proof, a.plugin) = "empty")
+\* the well-formed scramble is accepted whatever bytes it happens to consist of
+ExactAccepted == Judged /\ att.proof.k = "exact" => \A a \in accts :
+    (Candidates(accts, att.user) = {a} /\ a.locked = "no" /\ a.plugin = "native" /\ a.pw = "pw1")
+        => Exp = {[o |-> "accept", cu |-> CurrentUser(a)]}
 WrongRejected == Judged /\ att.proof = Pw("pw2") => Exp = {[o |-> "reject", cu |-> ""]}
 NoAccountRejected == Judged /\ (\A a \in accts : ~MatchesClient(a.host) \/ a.user \notin {att.user, ""}) => Exp = {[o |-> "reject", cu |-> ""]}
 AllLockedRejected == Judged /\ (\A a \in accts : a.locked # "no") => Exp = {[o |-> "reject", cu |-> ""]}
